@@ -14,9 +14,9 @@ Next == l < Len(Trace) /\ l' = l + 1
 IsCalls == l > 0 /\ Row.kind = "calls"
 CallSet == {Row.calls[i] : i \in 1..Len(Row.calls)}
 \* the invariants of PluginRegistryConc on the recorded calls (creation stamp travels in Row.created)
-OwnConfig == IsCalls /\ Row.c.ret = "comp" => /\ \A i \in 1..Len(Row.calls) : Row.calls[i].got = Row.calls[i].dec
+OwnConfig == IsCalls /\ (Row.c.ret = "comp" \/ Row.c.form = "New") => /\ \A i \in 1..Len(Row.calls) : Row.calls[i].got = Row.calls[i].dec
                                               /\ Cardinality({Row.calls[i].got : i \in 1..Len(Row.calls)}) = Len(Row.calls)
-OneConfig == IsCalls /\ Row.c.ret = "fact" => \A i \in 1..Len(Row.calls) : Row.calls[i].got = Row.created
+OneConfig == IsCalls /\ Row.c.ret = "fact" /\ Row.c.form # "New" => \A i \in 1..Len(Row.calls) : Row.calls[i].got = Row.created
 NoFailure == IsCalls => Row.bad = 0
 \* no unsynchronised sharing between overlapping calls at all
 NoRace == l > 0 /\ Row.kind = "race" => Row.n = 0
